@@ -37,13 +37,13 @@ TEXT = {
         'technique': 'Verus contract and loop invariants on the real ValveProtocol::receive (split-packet reassembly): ghost sequence of fragments, concatenation function, insertion-position invariant',
         'engine': 'verus',
         'level_text': 'Unbounded proof for Valve split packets: exactly total-1 further datagrams are read whatever fragment numbers they carry (no early exit), the chunks are ordered by fragment number, and the payload handed to decompression/parsing is the concatenation in ascending fragment number of ALL fragments, the first-arrived one inserted at the position its number demands. The result is therefore a function of the set of fragments, not of their arrival order.',
-        'level_note': 'Valve only: GameSpy 1, GameSpy 3 and Unreal 2 reassembly are not under contract (listed as not covered, with the defects read in the source); sort_by and mem::take are assumed std models; uniqueness of the sorted arrangement is not mechanised; duplicated fragments are not analysed.',
+        'level_note': 'Also proved (U-GS3): the GameSpy 3 packet table holds in slot i the data of the packet with id i for every arrival order in which the flagged last packet arrives last. GameSpy 1 and Unreal 2 reassembly are not under contract; sort_by and mem::take are assumed std models; uniqueness of the sorted arrangement is not mechanised; duplicated fragments are not analysed.',
     },
     'C09': {
         'technique': 'Verus send-log contracts on the real Valve, Unreal2, Savage2, FFOW and master-server clients (ghost log of every datagram handed to the transport) + Kani harnesses on the real request builders and on the first transport write of every protocol client',
         'engine': 'verus+kani',
         'level_text': 'Unbounded proof (Verus) for the Valve client that the first datagram is the request of the asked kind, that after every challenge reply exactly one datagram is sent and carries exactly the challenge bytes of that reply (after the default payload for A2S_INFO), and that nothing else is ever sent; likewise one documented request per call for Unreal2, the one-byte Savage2 request, the FFOW request and one seeded request per master-server page. Kani proves on the real code, for all 65536 ports, that each of 15 protocol clients opens the right kind of transport to the caller address and port and that its first write is byte for byte the protocol request, and that Packet::to_bytes / Request::get_default_payload / GameSpy3 RequestPacket::to_bytes produce the framing the Verus contracts assume (any challenge value).',
-        'level_note': 'GameSpy 3 challenge wiring, the Java handshake and later requests of single-request protocols are not covered (listed in the evidence); default-port choice of the generic entry point is the C14 harness set, run in the thorough tier only; transport modelled, Kani/CBMC and Verus/Z3 trusted.',
+        'level_note': 'GameSpy 3 (U-GS3): handshake request, then exactly one data request carrying the server challenge whatever its value (0 means none), proved on the real code with str::parse abstract. The Java handshake and later requests of single-request protocols are not covered (listed in the evidence); default-port choice of the generic entry point is the C14 harness set, run in the thorough tier only; transport modelled, Kani/CBMC and Verus/Z3 trusted.',
     },
     'C16': {
         'technique': 'Verus contracts on the real SearchFilters builders (three maps keyed by filter kind), ValveMasterServer::query_specific (one request, reply page decoded as the left inverse of the page encoder) and ValveMasterServer::query (paging loop with a ghost page counter)',
